@@ -2,6 +2,7 @@ package main
 
 import (
 	"fmt"
+	"go/constant"
 	"go/token"
 	"go/types"
 	"sort"
@@ -581,6 +582,24 @@ func (w *World) checkRound(P string, fn *ssa.Function) {
 						if c, ok := a.V.(*ssa.Call); ok && staticCallee(c) != nil {
 							n := funcFullName(staticCallee(c))
 							if (n == "math.IsNaN" || n == "math.IsInf") && a.Pol {
+								passThrough = true
+							}
+						}
+						// `case IsNaN(n) || IsInf(n, 0):` the disjunction as one value
+						if phi, ok := a.V.(*ssa.Phi); ok && a.Pol && len(phi.Edges) > 0 {
+							all := true
+							for _, e := range phi.Edges {
+								if k, isK := e.(*ssa.Const); isK && k.Value != nil && k.Value.Kind() == constant.Bool && constant.BoolVal(k.Value) {
+									continue
+								}
+								if c, isC := e.(*ssa.Call); isC && staticCallee(c) != nil {
+									if n := funcFullName(staticCallee(c)); n == "math.IsNaN" || n == "math.IsInf" {
+										continue
+									}
+								}
+								all = false
+							}
+							if all {
 								passThrough = true
 							}
 						}
